@@ -44,6 +44,11 @@ DB_EXEC_F2 = ("import numpy as np\nfrom pkg import b, c\nfrom pk import c\nfrom 
               "__forget_imports__ = ['from pk import *']\n__mandatory_imports__=['from __future__ import division']\n")
 
 
+# a fifth universe: one module / member under several local names, each of them unique
+DB_EXEC_A = ("import jsn\nimport jsn as js2\nfrom pkg import b\nfrom pkg import b as b2\nimport pkg.sub as f\nimport pkg.sub as f2\n"
+             "from m import d as d1, d as d2\nimport numpy as np\nimport numpy\n")
+
+
 def db_index(dbtext):
     """local name -> list of full names the database offers for it; read with stdlib ast, not with pyflyby."""
     idx = {}
@@ -73,7 +78,7 @@ UNIQUE = {"np": ("numpy", "np"), "osx": ("osx", "osx"), "b": ("pkg.b", "b"), "c"
           "f": ("pkg.sub", "f")}
 AMBIG = {"e"}
 UNKNOWN = {"g", "zz", "pkg", "aa"}          # `import pkg.util` / `import aa.bb` are looked up by first component only
-ROOTS = ("numpy", "osx", "pkg", "m", "n", "aa", "qq", "\u0928\u093e\u092e", "js", "jsx", "pk", "pk2", "decoy", "zz", "g")
+ROOTS = ("numpy", "osx", "pkg", "m", "n", "aa", "qq", "\u0928\u093e\u092e", "js", "jsx", "pk", "pk2", "decoy", "zz", "g", "jsn")
 LOCALS = ["v1", "v2", "v3"]
 
 
@@ -121,6 +126,11 @@ def gen_exec(r, uni=False, pool=None):
                                    '"%s"; %s' % (s, existing_import(r)),
                                    '%s; v1 = "%s"' % (use(r, pool), s)]))
             continue
+        if r.random() < .12:                  # an unused import that is NOT top-level, on an early line
+            lines += r.choice([["def loc%d(p=1):" % len(lines), "    import qq.zloc", "    return p"],
+                               ["if v1:", "    import qq.zcond", "else:", "    pass"],
+                               ["def loc%d(p=1):" % len(lines), "    from qq import zl2 as zl3", "    import qq.sub", "    return p"]])
+            continue
         if k < .25:
             for _ in range(r.randint(1, 3)):
                 lines.append(existing_import(r) + ("  # note" if r.random() < .1 else ""))
@@ -160,6 +170,24 @@ def gen_exec(r, uni=False, pool=None):
 
 
 ALLFLAGS = {"add_missing": True, "remove_unused": True, "add_mandatory": True}
+# remove_unused="AUTOMATIC": exempt iff the base name is __init__.py or a path component is .pyflyby (property text)
+FILENAMES = ["pkgdir/__init__.py", "pkgdir/mod.py", "pkgdir/x__init__.py", "pkgdir/test__init__.py", "pkgdir/__init__.pyx",
+             "pkgdir/__init__.py.bak", "__init__.py/mod.py", ".pyflyby/x.py", "a/.pyflyby/b/x.py", ".pyflybyx/x.py", "x.pyflyby/m.py",
+             "pkgdir/a.pyflyby", "pkgdir/_init_.py"]
+
+
+def exempt(filename):
+    if not filename:
+        return False
+    parts = filename.split("/")
+    return parts[-1] == "__init__.py" or ".pyflyby" in parts
+
+
+def removal_expected(c):
+    ru = (c.get("flags") or {}).get("remove_unused", "AUTOMATIC")
+    if ru == "AUTOMATIC":
+        return not exempt(c.get("filename") or c.get("workfile"))
+    return bool(ru)
 
 
 def gen_src(r, uni=False, pool=None):
@@ -224,19 +252,21 @@ def gen_cases(ctx, n):
             if c["cli"]:
                 c["flags"] = dict(fl, remove_unused="AUTOMATIC")
                 c["params"] = {"align_imports": [32], "from_spaces": 3, "separate_from_imports": False}
+                c["workfile"] = "work/" + r.choice(FILENAMES + ["mod.py"] * 4)
             cases.append(c)
             continue
         uni = r.random() < .2
         src = gen_src(r, uni)
         if k == 7:
             fl = S.gen_flags(r)
-        db = r.choice([DB_EXEC, DB_EXEC, DB_EXEC_MAND, DB_EXEC_MAND2, DB_EXEC2, DB_EXEC2])
+        db = r.choice([DB_EXEC, DB_EXEC, DB_EXEC_MAND, DB_EXEC_MAND2, DB_EXEC2, DB_EXEC2, DB_EXEC_A, DB_EXEC_A])
         if uni:
             db = DB_EXEC_U
+        elif db is DB_EXEC_A:
+            src = gen_src(r, False, D.raw_names(db) * 3 + ["zz", "g"] + LOCALS)
         c = {"kind": "tidy", "stream": "exec-unicode" if uni else "exec", "i": i, "src": src, "db": db, "flags": fl, "params": par}
-        if k == 8:
-            c["filename"] = r.choice(["/nonexistent-verif/pkgdir/__init__.py", "/nonexistent-verif/.pyflyby/x.py",
-                                      "/nonexistent-verif/pkgdir/mod.py"])
+        if k in (8, 9):
+            c["filename"] = "/nonexistent-verif/" + r.choice(FILENAMES)
             c["flags"] = dict(fl, remove_unused="AUTOMATIC")
         cases.append(c)
     return cases
@@ -277,6 +307,15 @@ WITNESSES = [
      "dbpath": ["db"], "db": "from pkg import b\nimport numpy as np\nfrom n import b\n",
      "flags": {"add_missing": True, "remove_unused": "AUTOMATIC", "add_mandatory": True},
      "params": {"align_imports": [32], "from_spaces": 3, "separate_from_imports": False}},
+    # two local names for one module, each unique; both read
+    {"kind": "tidy", "stream": "witness", "w": "alias", "src": "jsn.x\njs2.y\nb2.z\nb\n", "db": DB_EXEC_A,
+     "flags": {"add_missing": True, "remove_unused": True, "add_mandatory": False}, "params": None},
+    # a file that merely ends in __init__.py is not exempt from unused-import removal
+    {"kind": "tidy", "stream": "witness", "w": "init-lookalike", "src": "import qq\nv1 = 1\n", "db": DB_EXEC, "filename": "/nonexistent-verif/pkgdir/test__init__.py",
+     "flags": {"add_missing": True, "remove_unused": "AUTOMATIC", "add_mandatory": False}, "params": None},
+    # an unused function-local import on an earlier line than unused top-level imports
+    {"kind": "tidy", "stream": "witness", "w": "local-unused-first", "src": "def loc(p=1):\n    import qq.zloc\n    return p\nimport qq\nfrom qq import zq\nv1 = 1\n", "db": DB_EXEC,
+     "flags": {"add_missing": True, "remove_unused": True, "add_mandatory": False}, "params": None},
     # F23: unused import in a block that starts on the line where the previous block's text ends
     {"kind": "tidy", "stream": "witness", "w": "F23", "src": "import qq\nv1 = 1; import zz\nqq\n", "db": DB_EXEC,
      "flags": {"add_missing": True, "remove_unused": True, "add_mandatory": False}, "params": None},
@@ -440,7 +479,7 @@ def impl_case(c):
         try:
             D.materialise(root, c["dbtree"])
             os.environ["PYFLYBY_PATH"] = ":".join(os.path.join(root, e) for e in c["dbpath"])
-            c2 = dict(c, dbroot=root, filename=os.path.join(root, "work", "mod.py"))
+            c2 = dict(c, dbroot=root, filename=os.path.join(root, c.get("workfile", "work/mod.py")))
             res = _one(c2)
             if c.get("cli"):
                 res["cli"] = _cli(c2, root)
@@ -521,7 +560,7 @@ def oracle(c, im):
             newly = sorted((set(ro["unbound"]) - set(rs["unbound"])) & unique)
             if newly:
                 bad.append(("binding_lost", "names bound in the input are unbound in the output: %r" % newly))
-    if sc.get("find_unused") and fl.get("add_missing", True):
+    if removal_expected(c) and fl.get("add_missing", True):
         loads = loaded_names(out)
         futures = {"division", "annotations", "print_function"}
         for nme, how in sorted(after.items()):
